@@ -35,7 +35,8 @@ pub fn self_check(e: &Expr, x: &[f64], jet: &Jet, second: bool) -> Option<String
     let g = fd_gradient(e, x);
     for i in 0..x.len() {
         let h = 1e-6 * x[i].abs().max(1.0);
-        let tol = 2e-3 * (jet.gmag[i] + 1e-3) + 1e-13 * jet.vmag / h;
+        // (+ truncation: where f' vanishes the difference quotient still sees h x f'')
+        let tol = 2e-3 * (jet.gmag[i] + 1e-3) + 1e-13 * jet.vmag / h + 1e2 * h * jet.gl[i];
         if !((g[i] - jet.g[i]).abs() <= tol) {
             return Some(format!("reference gradient[{}] = {:e}, finite difference {:e} (tolerance {:e})", i, jet.g[i], g[i], tol));
         }
@@ -45,7 +46,9 @@ pub fn self_check(e: &Expr, x: &[f64], jet: &Jet, second: bool) -> Option<String
         for i in 0..x.len() {
             let h = 1e-5 * x[i].abs().max(1.0);
             for k in 0..x.len() {
-                let tol = 2e-3 * (jet.hmag[i][k] + 1e-3) + 1e-13 * jet.gmag[k] / h;
+                // (+ truncation: at a point where the second derivative vanishes but the third does not
+                // - a cube at an exactly-zero base - the difference quotient is off by about h x f''')
+                let tol = 2e-3 * (jet.hmag[i][k] + 1e-3) + 1e-13 * jet.gmag[k] / h + 1e2 * h * (jet.hl[i][k] + jet.gl[i] + jet.gl[k]);
                 if !((hm[i][k] - jet.h[i][k]).abs() <= tol) {
                     return Some(format!("reference hessian[{}][{}] = {:e}, finite difference {:e} (tolerance {:e})", i, k, jet.h[i][k], hm[i][k], tol));
                 }
